@@ -406,6 +406,8 @@ def TFUN(args, ret):
 
 VOTES = TL(TP(T_C, T_Q))
 T_SEL = TFUN([VOTES], TL(T_C))       # a seatless selector: its evaluate(votes)
+T_STR = 'STR'                         # a configuration string; only compared with literals
+T_RES = 'RES'                         # an item of a get_n_best selection: candidate or Tie (Model/GetNBest.v res)
 T_PG = 'PG'                           # the prev_gains pass-through argument (never inspected by translated code)
 EXN = {'ValueError': 'PyValueError', 'RuntimeError': 'PyRuntimeError', 'TypeError': 'PyTypeError', 'KeyError': 'PyKeyError',
        'IndexError': 'PyIndexError', 'ZeroDivisionError': 'PyZeroDivisionError', 'VotingSystemError': 'PyVotingSystemError',
@@ -423,6 +425,10 @@ def coq_type(t):
         return 'C'
     if t == T_PG:
         return 'unit'
+    if t == T_STR:
+        return 'String.string'
+    if t == T_RES:
+        return 'res C'
     if t[0] in ('L', 'S'):
         return 'list (%s)' % coq_type(t[1])
     if t[0] == 'O':
@@ -512,6 +518,8 @@ class TX:
                 return ('true' if e.value else 'false'), T_B
             if isinstance(e.value, int):
                 return '(%d)%%Z' % e.value, T_Z
+            if isinstance(e.value, str) and re.fullmatch(r'[A-Za-z0-9_ .-]*', e.value):
+                return '"%s"%%string' % e.value, T_STR
             die(e, 'constant')
         if self.ref(e) is not None:
             return self.lookup(e, env)
@@ -566,6 +574,9 @@ class TX:
                     t = '(cmem %s %s)' % (a[0], b[0])
                     return (t if isinstance(op, ast.In) else '(negb %s)' % t), T_B
                 die(e, 'membership test on %s / %s' % (a[1], b[1]))
+            if a[1] == T_STR and b[1] == T_STR and isinstance(op, (ast.Eq, ast.NotEq)):
+                t = '(String.eqb %s %s)' % (a[0], b[0])
+                return (t if isinstance(op, ast.Eq) else '(negb %s)' % t), T_B
             if a[1] not in (T_Z, T_Q) or b[1] not in (T_Z, T_Q):
                 die(e, 'comparison of %s / %s' % (a[1], b[1]))
             ta, tb, ty = self.unify(a, b, e)
@@ -722,6 +733,11 @@ class TX:
             if a[1] == VOTES:
                 return '(sort_desc Qle_bool %s)' % a[0], VOTES
             die(e, 'sorted_votes of a %s' % (a[1],))
+        if name == 'votelib.evaluate.core.get_n_best' and len(args) == 2 and not kw:
+            a, n = self.expr(args[0], env), self.expr(args[1], env)
+            if a[1] == VOTES and n[1] == T_Z:
+                return '(get_n_best Qle_bool %s (Z.to_nat %s))' % (a[0], n[0]), TL(T_RES)
+            die(e, 'get_n_best of a %s / %s' % (a[1], n[1]))
         if name == 'range' and len(args) == 1 and not kw:
             a = self.expr(args[0], env)
             if a[1] == T_Z:
@@ -1006,11 +1022,21 @@ class TX:
         if s.orelse and self.stops(s.orelse):
             mk, et, ee = self.branches(s.test, env)
             return mk(self.block(list(s.body) + rest, et, final), self.block(s.orelse, ee, None))
-        # conditional update of ONE variable
-        va = sorted(set(self.assigned(s.body)))
-        vb = sorted(set(self.assigned(s.orelse))) if s.orelse else va
-        if len(va) != 1 or va != vb:
-            die(s, 'conditional must update exactly one variable on both paths')
+        # conditional update of ONE variable -> let x := if .. ; anything else -> the statements after the conditional are
+        # translated once on each path (if c then body; rest else orelse; rest)
+        try:
+            va = sorted(set(self.assigned(s.body)))
+            vb = sorted(set(self.assigned(s.orelse))) if s.orelse else va
+            single = len(va) == 1 and va == vb and (s.orelse or va[0] in env)
+        except Unsupported:
+            single = False
+        if not single:
+            mk, et, ee = self.branches(s.test, env)
+            fresh0 = set(self.fresh)
+            a = self.block(list(s.body) + rest, et, final)
+            self.fresh = set(fresh0)
+            b = self.block(list(s.orelse) + rest, ee, final)
+            return mk(a, b)
         r = va[0]
         if not s.orelse and r not in env:
             die(s, 'conditional definition of %s' % r)
@@ -1352,6 +1378,7 @@ def translate_typed(path, defs, module):
 
 
 TYPED_HEADER = """(* GENERATED by tools/py2v.py from %s -- do not edit. *)
+From Coq Require Import String.
 From Coq Require Import ZArith QArith List Bool.
 From VL Require Import Prelude.PyDict Prelude.PyNum Prelude.PyList Model.GetNBest.
 Import ListNotations.
@@ -1386,6 +1413,10 @@ TYPED_JOBS = [
              ctor={'quota_function': 'votelib.component.quota.construct(quota_function)'},
              params=[('quota_function', 'self.quota_function', TFUN([T_Q, T_Z], T_Q)), P_AE, ('votes', 'votes', VOTES),
                      ('n_seats', 'n_seats', T_Z)]),
+            dict(name='QuotaSelector_evaluate', cls='QuotaSelector', fn='evaluate', kind='body',
+             ctor={'quota_function': 'votelib.component.quota.construct(quota_function)'},
+             params=[('quota_function', 'self.quota_function', TFUN([T_Q, T_Z], T_Q)), P_AE,
+                     ('on_more_over_quota', 'self.on_more_over_quota', T_STR), ('votes', 'votes', VOTES), ('n_seats', 'n_seats', T_Z)]),
     ]),
     ('Openlist', 'votelib/evaluate/openlist.py', [
         dict(name='ThresholdOpenList_jump_test', cls='ThresholdOpenList', fn='evaluate', kind='comp_if', target='jumping',
